@@ -49,7 +49,7 @@ func (m *PackedMessageBody) Unpack(cache *SignatureCache) (*MessageBody, error) 
 	for i, v := range m.LastSeen {
 		if v.Signature != nil {
 			LastSeen[i] = v.Signature
-		} else if v.ID >= 0 && int(v.ID) < len(cache.signatures) {
+		} else if v.ID >= 0 && int(v.ID) < len(cache.signatures) && cache.signatures[v.ID] != nil {
 			LastSeen[i] = cache.signatures[v.ID]
 		} else {
 			return nil, UncachedSignature
